@@ -46,8 +46,10 @@ VARIABLES hist,
           embargoed,  \* caller: an embargo is in force
           delivered,  \* caller: calls delivered to B's implementation / callee: calls the peer has received for I
           echoed,     \* the Disembargo has made it back (caller: C received the echo; callee: the peer received it)
-          dissent     \* callee: number of calls pipelined when the peer sent its Disembargo (-1: not sent yet)
-vars == <<hist, issued, pret, cret, toPeer, pumps, waiting, embargoed, delivered, echoed, dissent>>
+          dissent,    \* callee: number of calls pipelined when the peer sent its Disembargo (-1: not sent yet)
+          conc        \* caller: pairs of calls that were held back at the same time (made concurrently: SendCall blocks under an
+                      \* embargo, so the second can only come from another goroutine) - their relative order is not defined
+vars == <<hist, issued, pret, cret, toPeer, pumps, waiting, embargoed, delivered, echoed, dissent, conc>>
 
 Act(a) == [a |-> a, q |-> 0 - 1, on |-> 0 - 1, exp |-> 0 - 1, n |-> 0, tag |-> 0 - 1, kind |-> "", rel |-> FALSE, h |-> "", cap |-> 0 - 1, k |-> 0]
 T0 == 100
@@ -65,7 +67,7 @@ Prologue ==
           [Act("p-call") EXCEPT !.q = 2, !.on = 1, !.kind = "root", !.tag = T0, !.cap = 5] >>
 
 Init == /\ hist = Prologue /\ issued = 0 /\ pret = FALSE /\ cret = FALSE /\ toPeer = <<>> /\ pumps = 0
-        /\ waiting = <<>> /\ embargoed = FALSE /\ delivered = <<>> /\ echoed = FALSE /\ dissent = 0 - 1
+        /\ waiting = <<>> /\ embargoed = FALSE /\ delivered = <<>> /\ echoed = FALSE /\ dissent = 0 - 1 /\ conc = {}
 
 Add(x) == hist' = Append(hist, x)
 
@@ -80,6 +82,7 @@ LPipe == /\ Side = "caller" /\ issued < NCalls
                                    /\ UNCHANGED <<toPeer, delivered>>
             ELSE /\ delivered' = Append(delivered, issued + 1)                           \* resolved, no embargo: delivered directly
                  /\ UNCHANGED <<toPeer, waiting>>
+         /\ conc' = IF cret /\ embargoed THEN conc \cup { {waiting[i], issued + 1} : i \in 1..Len(waiting) } ELSE conc
          /\ UNCHANGED <<pret, cret, pumps, embargoed, echoed, dissent>>
 \* the peer answers T0 with C's own capability; C processes the Return: if it has pipelined on the result it
 \* embargoes the capability and sends the Disembargo behind the pipelined calls
@@ -89,7 +92,7 @@ PReturnLoop == /\ Side = "caller" /\ ~pret
                /\ IF issued > 0 /\ Embargo
                   THEN embargoed' = TRUE /\ toPeer' = Append(toPeer, Dis)
                   ELSE UNCHANGED <<embargoed, toPeer>>
-               /\ UNCHANGED <<issued, pumps, waiting, delivered, echoed, dissent>>
+               /\ UNCHANGED <<issued, pumps, waiting, delivered, echoed, dissent, conc>>
 \* the peer takes the next message: a pipelined call is reflected to B (C delivers it), the Disembargo is echoed (C lifts the embargo
 \* and lets the waiting calls through).  The peer reflects only once it has resolved T0 (sent the Return).
 PPumpCaller == /\ Side = "caller" /\ pret /\ toPeer # <<>> /\ pumps < MaxPump
@@ -97,9 +100,11 @@ PPumpCaller == /\ Side = "caller" /\ pret /\ toPeer # <<>> /\ pumps < MaxPump
                /\ Add(Act("p-pump"))
                /\ IF Head(toPeer).m = "call"
                   THEN /\ delivered' = Append(delivered, Head(toPeer).t) /\ UNCHANGED <<waiting, embargoed, echoed>>
-                  ELSE /\ echoed' = TRUE /\ embargoed' = FALSE
-                       /\ delivered' = delivered \o waiting /\ waiting' = <<>>
-               /\ UNCHANGED <<issued, pret, cret, dissent>>
+                  ELSE /\ echoed' = TRUE /\ embargoed' = FALSE /\ waiting' = <<>>
+                       \* the calls held back are let through together: in any order
+                       /\ \E perm \in { f \in [1..Len(waiting) -> 1..Len(waiting)] : \A a, b \in 1..Len(waiting) : a # b => f[a] # f[b] } :
+                             delivered' = delivered \o [i \in 1..Len(waiting) |-> waiting[perm[i]]]
+               /\ UNCHANGED <<issued, pret, cret, dissent, conc>>
 
 \* ---------------------------------------------------------------- callee
 \* the peer pipelines the next call on the answer to T0
@@ -108,14 +113,14 @@ PPipe == /\ Side = "callee" /\ issued < NCalls
          /\ Add([Act("p-call") EXCEPT !.q = 3 + issued, !.on = 2, !.tag = issued + 1])
          /\ IF ~cret THEN waiting' = Append(waiting, issued + 1) /\ UNCHANGED toPeer       \* queued on the running call
             ELSE toPeer' = Append(toPeer, CallMsg(issued + 1)) /\ UNCHANGED waiting          \* forwarded to the import at once
-         /\ UNCHANGED <<pret, cret, pumps, embargoed, delivered, echoed, dissent>>
+         /\ UNCHANGED <<pret, cret, pumps, embargoed, delivered, echoed, dissent, conc>>
 \* C's method body returns the capability it was given: queued calls are forwarded, then the Return goes out
 AReturnArg == /\ Side = "callee" /\ ~cret
               /\ cret' = TRUE
               /\ Add([Act("a-return") EXCEPT !.tag = T0, !.kind = "ok-argcap"])
               /\ toPeer' = toPeer \o [i \in 1..Len(waiting) |-> CallMsg(waiting[i])] \o << [m |-> "ret", t |-> T0] >>
               /\ waiting' = <<>>
-              /\ UNCHANGED <<issued, pret, pumps, embargoed, delivered, echoed, dissent>>
+              /\ UNCHANGED <<issued, pret, pumps, embargoed, delivered, echoed, dissent, conc>>
 \* the peer takes the next message from C: forwarded calls reach I's implementation; on the Return the peer learns that the
 \* result is its own capability and sends Disembargo(senderLoopback) - C echoes it behind everything it forwarded so far
 PPumpCallee == /\ Side = "callee" /\ toPeer # <<>> /\ pumps < MaxPump
@@ -129,14 +134,14 @@ PPumpCallee == /\ Side = "callee" /\ toPeer # <<>> /\ pumps < MaxPump
                                        /\ UNCHANGED <<delivered, echoed>>
                     [] x.m = "echo" -> /\ echoed' = TRUE /\ toPeer' = Tail(toPeer)
                                        /\ UNCHANGED <<delivered, pret, dissent>>
-               /\ UNCHANGED <<issued, cret, waiting, embargoed>>
+               /\ UNCHANGED <<issued, cret, waiting, embargoed, conc>>
 
 Next == LPipe \/ PReturnLoop \/ PPumpCaller \/ PPipe \/ AReturnArg \/ PPumpCallee
 Spec == Init /\ [][Next]_vars
 
 \* ---------------------------------------------------------------- properties of the protocol
-\* calls reach the implementation in the order in which they were made
-InOrder == \A i, j \in 1..Len(delivered) : i < j => delivered[i] < delivered[j]
+\* calls reach the implementation in the order in which they were made (calls made concurrently have no order)
+InOrder == \A i, j \in 1..Len(delivered) : i < j => (delivered[i] < delivered[j] \/ {delivered[i], delivered[j]} \in conc)
 \* each call is delivered at most once, and nothing is delivered that was not issued
 NoDup == /\ \A i, j \in 1..Len(delivered) : i # j => delivered[i] # delivered[j]
          /\ \A i \in 1..Len(delivered) : delivered[i] \in 1..issued
